@@ -182,7 +182,8 @@ static Case gen_C11(const GenCtx &ctx) {
   }
   std::vector<std::pair<int, const Op *>> w;
   for (auto &o : ops())
-    if (o.gen && o.weight > 0 && std::string(o.prop) != "C19") w.push_back({o.weight * (o.views_ok ? 2 : 1), &o});
+    if (o.gen && o.weight > 0 && std::string(o.prop) != "C19" && !(g::bytes() && std::string(o.prop) == "C18"))  // C18 ops fork
+      w.push_back({o.weight * (o.views_ok ? 2 : 1), &o});
   const Op *o = g::wpick(w);
   o->gen(ctx, c, o->views_ok ? 60 : 0);
   even_offsets_for_building_blocks(c);
